@@ -334,17 +334,20 @@ def cli_matrix(tier):
             if reqs[c['req']] is not None:
                 with open(inp, 'w') as f:
                     f.write(reqs[c['req']])
-            name = {'absent': None, 'rel': 'result.out', 'rel_nested': 'sub dir/nested.out', 'rel_nosuffix': 'r', 'rel_oneletter': 'o.t',
-                    'rel_repeated': 'out.d/out', 'abs': 'res.abs.out', 'abs_nosuffix': 'absreport'}[c['out']]
+            name = histsim.OUT_NAMES.get(c['out'])
             if name is None:
                 arg, full = None, os.path.join(cwd, 'HDR.out')
             elif c['out'].startswith('abs'):
                 arg = full = os.path.join(d, 'abs out', name)
             else:
-                arg, full = name, os.path.join(cwd, name)
+                arg, full = name, (os.path.normpath(os.path.join(cwd, name)) if c['out'] == 'rel_dotdot' else os.path.join(cwd, name))
             os.makedirs(os.path.dirname(full), exist_ok=True)
+            if c['out'] == 'rel_symlink':
+                os.makedirs(os.path.join(cwd, 'runs'), exist_ok=True)
+                os.symlink(os.path.join('runs', 'r1.out'), full)
             jp = os.path.join(os.path.dirname(full), os.path.splitext(os.path.basename(full))[0] + '.json')
-            env = dict(os.environ, PYTHONPATH=repo_src, TMPDIR=os.path.join(d))
+            os.makedirs(os.path.join(d, 'home'), exist_ok=True)
+            env = dict(os.environ, PYTHONPATH=repo_src, TMPDIR=os.path.join(d), HOME=os.path.join(d, 'home'))
             before = histsim.list_dir(d)
             r = subprocess.run([sys.executable, '-m', 'geophires_x', os.path.relpath(inp, cwd) if c['id'] % 2 else inp] + ([arg] if arg else []),
                                cwd=cwd, env=env, capture_output=True, text=True, timeout=300)
@@ -379,7 +382,8 @@ def cli_matrix(tier):
                     V(c, 'entrypoint_report_diff', 'cli_vs_client', 'report differs from the client: ' + histsim._first_diff(o['report'], ref_report))
                 if not o['json']:
                     V(c, 'missing_json', f"cli_{c['out']}", f"no JSON at {o['jp']}; new files {o['new'][:4]}")
-                stray = [x for x in o['new'] if x not in (o['full'], o['jp']) and not x.startswith('geophires') and '__pycache__' not in x]
+                stray = [x for x in o['new'] if x not in (o['full'], o['jp']) and not x.startswith('geophires') and '__pycache__' not in x and not x.startswith('home/.')
+                         and not (c['out'] == 'rel_symlink' and x.endswith(os.path.join('runs', 'r1.out')))]
                 if stray:
                     V(c, 'stray_file', 'cli', f'unexpected new files {stray[:4]}')
             else:
